@@ -13,16 +13,20 @@ from harness.core import Ctx
 from harness.util import shrink_list
 from harness.props import c01_lang as L
 from harness.props import c01_probe as P
+from harness.props import c02_pristine as PR
 
 RULE = ("random histories (length <= 8 quick / <= 40 thorough) of solve() calls on one instance (half of them inside "
         "an entered `with` context); each call is a generated valid expression or one with a fault injected at a "
         "random token position (unknown atom, deleted operand, unbalanced parenthesis, atom constructor raising on a "
-        "marker). Configurations: default operators with a recording atom; the documentation's string atom with "
+        "marker); a few long histories (150 calls quick / 400 thorough) with 75 % rejected calls, and histories that repeat one "
+        "rejected call (with a parenthesis) 35-90 times before valid calls. Configurations: default operators with a recording atom; the documentation's string atom with "
         "{add, gt, par}; the documentation's custom unary operators with custom steps; random operator SUBSETS of "
         "the default table (with/without 'par', dict order kept or shuffled, default steps or a random custom step "
         "order) with strings from the full language, from the subset's own symbols and plain-parenthesis / call "
         "forms; atom classes that are not pure: constructor reading variables changed between the calls, in-place "
-        "operators returning self, constructor-call counting. Every instance gets private copies of the operator "
+        "operators returning self, constructor-call counting; the stock AtomBase with expressions whose numpy arithmetic "
+        "gives nan / inf / raises or that use a logarithm -- there the k-th outcome is also compared with the outcome "
+        "of the same expression in a process that solved nothing before (forked from a pristine server). Every instance gets private copies of the operator "
         "dict and step list; the fresh instance is built from the pristine configuration at the moment of the "
         "call. Plus histories in which the buffers and self.expr are overwritten with garbage between the calls, and "
         "histories alternating between two instances that share the operators/steps objects; recon corpus first. "
@@ -37,6 +41,9 @@ ASSUMPTIONS = [
     "persistent attribute beyond tokens{atom,left,right}, operators, steps, expr -- both checked on the real "
     "objects after every generated history (snapshot and vars() key sets), they are parameters / state "
     "components of the model",
+    "the atom algebra in force at a call is not influenced by earlier calls through process-wide state: numpy error "
+    "mode / error callback / print options, recursion limit, decimal context, locale, cwd, environment, warning "
+    "filters are compared before/after every history, and stock-atom outcomes with the pristine-process baseline",
     "solve() is called with strings (an Expression object passed in is consumed by the call)",
     "outcomes are compared as terms (recording atom) or as the custom atoms' values; every raised exception is "
     "one outcome 'err'",
@@ -57,13 +64,24 @@ GEN2 = core.LEAN / "SciVerif" / "Generated" / "C02Tables.lean"
 CORPUS = core.VERIF / "corpus" / "C02"
 
 
+PROBE_EFFECT = {}
+
+
 def gen_tables(ctx):
+    import numpy as np
     changed = []
-    cfg = P.default_config()
+    # abstract probing executes the operate_* methods in this process: isolate its effect on numpy's error mode
+    # (the histories below must start from a pristine process) and remember that there was one
+    before = PR.process_state()
+    with np.errstate():
+        cfg = P.default_config()
+        cfgs = [(k, P.extract_config(k, *v)) for k, v in P.custom_configs().items()]
+        after = PR.process_state()
+    PROBE_EFFECT.clear()
+    PROBE_EFFECT.update({k: (before[k], after[k]) for k in before if before[k] != after[k]})
     doc = P.doc_steps((core.REPO / "docs" / "source" / "solver" / "index.rst").read_text())
     if core.write_if_changed(GEN1, P.render_c01(cfg, doc)):
         changed.append(str(GEN1))
-    cfgs = [(k, P.extract_config(k, *v)) for k, v in P.custom_configs().items()]
     if core.write_if_changed(GEN2, P.render_c02(cfgs)):
         changed.append(str(GEN2))
     return changed
@@ -72,6 +90,7 @@ def gen_tables(ctx):
 # ---------------------------------------------------------------- configurations (real side)
 WORLD = {"foo": 3.0, "bar": 4.0}
 MODEL_UNSUPPORTED = ("fuel", "sign-item", "row")
+POLLUTER = {"exprs": None, "what": None}      # the first calls of this run that changed process-wide state
 
 
 def copy_steps(steps):
@@ -161,9 +180,20 @@ def make_configs():
                          classes=list(dflt.operators.values()), value=lambda a: L.listify(a.value),
                          observe=observe_count),
     }
+    def quiet(fn):
+        import warnings
+        with warnings.catch_warnings():
+            warnings.simplefilter("ignore")
+            return fn()
+    # the stock atom: numpy arithmetic with nan / inf / raising results; additionally judged against the outcome
+    # of the same expression in a process that solved nothing before (pristine=True)
+    cfgs["stockcfg"] = dict(atom=AtomBase, operators=None, steps=None, alg=None,
+                            classes=list(dflt.operators.values()), value=lambda a: PR.canon_value(a.value),
+                            observe=quiet, pristine=True)
     for c in cfgs.values():
         c.setdefault("observe", plain)
         c.setdefault("between", None)
+        c.setdefault("pristine", False)
         c["any_atom"] = AtomBase
     return cfgs
 
@@ -205,7 +235,7 @@ def make_subset_config(rng, default_ops):
     return dict(atom=P.RecAtom, operators={n: default_ops[n] for n in order}, steps=steps, alg="float",
                 mcfg={"ops": order, "steps": msteps}, classes=[default_ops[n] for n in order],
                 value=lambda a: L.listify(a.value), mvalue=lambda t: t, observe=lambda fn: fn(), between=None,
-                names=order)
+                pristine=False, names=order)
 
 
 def new_solver(cfg, enter=False):
@@ -308,6 +338,7 @@ def run_history(cfg, exprs, seed=0, poisoned=False, check=None):
     rng = random.Random(seed)
     es = new_solver(cfg, enter=rng.random() < 0.5)
     before = snapshot(es)
+    pstate = PR.process_state()
     out = []
     for s in exprs:
         if cfg["between"]:
@@ -317,12 +348,21 @@ def run_history(cfg, exprs, seed=0, poisoned=False, check=None):
         fresh = run_fresh(cfg, s)
         r = call(cfg, es, s)
         out.append((r, [canon_tok(cfg, t) for t in es.tokens.left], [canon_tok(cfg, t) for t in es.tokens.right], fresh))
+        if cfg["pristine"] and POLLUTER["exprs"] is None:
+            now = PR.process_state()
+            if now != pstate:
+                POLLUTER["exprs"] = list(exprs[:len(out)])
+                POLLUTER["what"] = {k: (pstate[k], now[k]) for k in pstate if pstate[k] != now[k]}
         if check is not None and getattr(es.expr, "expr", None) != s:
             check("expr", "self.expr.expr is %r after solve(%r)" % (getattr(es.expr, "expr", None), s))
     if check is not None:
         if snapshot(es) != before:
             check("config", "operators / steps / operator classes / the objects created by __init__ were "
                             "modified or replaced by solve()")
+        pafter = PR.process_state()
+        if pafter != pstate:
+            check("process-state", "process-wide state changed during the history: %s" %
+                  {k: (pstate[k], pafter[k]) for k in pstate if pstate[k] != pafter[k]})
         extra, missing = unknown_fields(es)
         if extra or missing:
             check("fields", "the instance carries state the model does not have: extra %s, missing %s" % (extra, missing))
@@ -368,10 +408,10 @@ def join(rng, lx):
     return "".join(" " * rng.choice([0, 0, 1, 2]) + x for x in lx) + " " * rng.choice([0, 0, 1])
 
 
-def gen_default(rng):
+def gen_default(rng, p_fault=0.45):
     e = L.gen_expr(rng, 8, rng.randint(1, 4))
     lx = L.lexemes(e)
-    if rng.random() < 0.45:
+    if rng.random() < p_fault:
         kind, lx = inject_fault(rng, lx)
         return join(rng, lx), kind
     return join(rng, lx), "valid"
@@ -452,12 +492,29 @@ def gen_subset(rng, cfg):
     return join(rng, rng.choice(forms)), "paren-form"
 
 
-GENS = {"default": gen_default, "strcfg": gen_str, "unarycfg": gen_unary, "worldcfg": gen_world,
+def gen_edge(rng):
+    """expressions whose numpy arithmetic hits invalid / divide / overflow conditions or that use a logarithm"""
+    a, b = rng.choice(["2", "1", "3", "0.5"]), rng.choice(["6", "4", "2", "1"])
+    z = rng.choice(["sin(0)", "(%s-%s)" % (a, a), "log(1)", "0*cos(1)"])
+    f = rng.choice(["sqrt", "log", "log10", "sin", "cos", "tan", "exp"])
+    forms = ["sqrt(%s-%s)" % (a, b), "log(%s-%s)" % (a, b), "log10(%s-%s)" % (a, b), "log(%s)" % z, "log10(0)",
+             "%s(%s)/%s" % (f, a, z), "sin(%s)/%s" % (a, z), "%s/%s" % (z, z), "logb(%s-%s, %s)" % (a, b, a),
+             "logb(%s, %s)" % (b, a), "log(%s) + %s" % (b, a), "log10(%s) * %s" % (b, a), "exp(1000)", "exp(1000)-exp(1000)",
+             "10**400", "(0-%s)**0.5" % a, "sqrt(%s-%s) < 1" % (a, b), "%s(%s - %s)" % (f, a, b), "pow(0, 0-1)",
+             "sqrt(%s) + %s(%s)" % (b, f, a), "1/0", "tan(%s)*%s" % (a, z)]
+    return rng.choice(forms), "edge"
+
+
+def gen_stock(rng):
+    return gen_edge(rng) if rng.random() < 0.6 else gen_default(rng)
+
+
+GENS = {"stockcfg": gen_stock, "default": gen_default, "strcfg": gen_str, "unarycfg": gen_unary, "worldcfg": gen_world,
         "inplacecfg": gen_str, "countcfg": gen_default}
 
 
 # ---------------------------------------------------------------- the check
-def judge(ctx, cfgname, cfg, exprs, kinds=None, model=None, seed=0):
+def judge(ctx, cfgname, cfg, exprs, kinds=None, model=None, seed=0, pristine=None):
     real = run_history(cfg, exprs, seed=seed, check=lambda kind, msg: ctx.disagreement(
         "instance-%s:%s" % (kind, cfgname), {"cfg": cfgname, "config": cfg.get("mcfg"), "exprs": exprs}, msg))
     key = json.dumps([cfgname, cfg.get("mcfg"), exprs])
@@ -489,6 +546,21 @@ def judge(ctx, cfgname, cfg, exprs, kinds=None, model=None, seed=0):
                           {"cfg": cfgname, "config": cfg.get("mcfg"), "exprs": small, "seed": seed,
                            "outcome": rr[-1][0], "fresh": rr[-1][3]})
             break
+        base = pristine.get(s) if pristine else None
+        if base is not None and (out == "err" or out == "none" or (isinstance(out, dict) and "atom" in out)) \
+                and out != base:
+            hist = exprs[:k + 1]
+            if POLLUTER["exprs"] is not None and POLLUTER["exprs"] != exprs[:len(POLLUTER["exprs"])]:
+                hist = POLLUTER["exprs"] + hist       # the earlier calls of this process that changed the state
+            ctx.violation("history:" + cfgname + ":process-state",
+                          "call %d of the history %s on one %s instance: solve(%r) gives %s; the same expression in a "
+                          "process that solved nothing before gives %s (a fresh instance in this process: %s)%s" %
+                          (len(hist), json.dumps(hist)[:300], cfgname, s, json.dumps(out)[:160], json.dumps(base)[:160],
+                           json.dumps(fresh)[:160],
+                           ("; process-wide state changed by the earlier calls: %s" % POLLUTER["what"]) if POLLUTER["what"] else ""),
+                          {"cfg": cfgname, "exprs": hist, "seed": seed, "outcome": out, "pristine": base,
+                           "process_state_changed": repr(POLLUTER["what"])})
+            break
         dirty = bool(left or right)
         if dirty:
             ctx.count("%s.calls_leaving_tokens" % cfgname)
@@ -519,6 +591,23 @@ def judge(ctx, cfgname, cfg, exprs, kinds=None, model=None, seed=0):
             ctx.count("%s.calls_where_reset_matters" % cfgname)
     ctx.case(key, nontriv, {"cfg": cfgname, "history": exprs[:4]} if not isinstance(cfg.get("mcfg"), dict)
              else {"cfg": cfg["mcfg"], "history": exprs[:3]})
+
+
+def pristine_outcomes(texts):
+    """{text: outcome of ExpressionSolver(AtomBase).solve(text) in a forked child of a process that never ran
+    the solver}  (harness/props/c02_pristine.py)"""
+    import os
+    import subprocess
+    import sys
+    if not texts:
+        return {}
+    env = dict(os.environ, VERIF_REPO=str(core.REPO))
+    p = subprocess.run([sys.executable, PR.__file__], env=env, text=True, stdout=subprocess.PIPE, stderr=subprocess.PIPE,
+                       input="".join(json.dumps({"s": t}) + "\n" for t in texts), timeout=1800)
+    lines = p.stdout.splitlines()
+    if p.returncode != 0 or len(lines) != len(texts):
+        raise RuntimeError("pristine oracle failed: rc=%s %d/%d %s" % (p.returncode, len(lines), len(texts), p.stderr[-500:]))
+    return {t: json.loads(l) for t, l in zip(texts, lines)}
 
 
 def poisoned_stream(ctx, cfgname, cfg, histories):
@@ -567,7 +656,16 @@ def correspond(ctx: Ctx):
     cfgs = make_configs()
     maxlen = 40 if thorough else 8
     count = 1500 if thorough else 300
+    POLLUTER["exprs"], POLLUTER["what"] = None, None
+    if PROBE_EFFECT:
+        ctx.disagreement("probe-process-state", {"changed": repr(PROBE_EFFECT)},
+                         "running the operate_* methods once (abstract probing) changed process-wide state: %s" % PROBE_EFFECT)
     plan = []
+    # the stock-atom histories come first: the harness process itself must still be pristine for them
+    for _ in range(count // 2):
+        n = rng.randint(2, maxlen)
+        calls = [gen_stock(rng) for _ in range(n)]
+        plan.append(("stockcfg", cfgs["stockcfg"], [c[0] for c in calls], [c[1] for c in calls]))
     for f in sorted(CORPUS.glob("*.json")):
         for h in json.loads(f.read_text()).get("histories", []):
             plan.append((h["cfg"], cfgs[h["cfg"]], h["exprs"], None))
@@ -576,6 +674,28 @@ def correspond(ctx: Ctx):
             n = rng.randint(2, maxlen)
             calls = [GENS[cfgname](rng) for _ in range(n)]
             plan.append((cfgname, cfgs[cfgname], [c[0] for c in calls], [c[1] for c in calls]))
+    # long histories dominated by rejected calls (an effect that needs dozens of failures to build up)
+    longlen = 400 if thorough else 150
+    for _ in range(6 if thorough else 2):
+        calls = [gen_default(rng, 0.75) for _ in range(longlen)]
+        plan.append(("default", cfgs["default"], [c[0] for c in calls], [c[1] for c in calls]))
+        calls = [gen_default(rng, 0.75) for _ in range(longlen)]
+        plan.append(("stockcfg", cfgs["stockcfg"], [c[0] for c in calls], [c[1] for c in calls]))
+    # the same rejected call repeated dozens of times, then valid calls (accumulating effects)
+    for cfgname in ("default", "stockcfg", "strcfg", "unarycfg"):
+        g = GENS[cfgname]
+        for _ in range(8 if thorough else 4):
+            bad = None
+            for _try in range(200):
+                t, kind = g(rng)
+                if kind not in ("valid", "valid-any-text", "edge") and (cfgname == "unarycfg" or "(" in t):
+                    bad = t
+                    break
+            if bad is None:
+                continue
+            good = [x for x in (g(rng) for _ in range(30)) if x[1] in ("valid", "edge")][:4]
+            k = rng.randint(35, 90)
+            plan.append((cfgname, cfgs[cfgname], [bad] * k + [x[0] for x in good], ["repeat"] * k + [x[1] for x in good]))
     # operator subsets of the default table, with and without 'par', default and custom step orders
     default_ops = dict(new_solver(cfgs["default"]).operators)
     for i in range(count):
@@ -592,12 +712,17 @@ def correspond(ctx: Ctx):
             n = rng.randint(2, maxlen)
             calls = [GENS[cfgname](rng) for _ in range(n)]
             plan.append((cfgname, cfgs[cfgname], [c[0] for c in calls], [c[1] for c in calls]))
+    # the outcome of every stock expression in a process that solved nothing before
+    ptexts = sorted({s for p in plan if p[1]["pristine"] for s in p[2]})
+    pristine = pristine_outcomes(ptexts)
+    ctx.count("stockcfg.pristine_baselines", len(ptexts))
     modelled = [i for i, p in enumerate(plan) if p[1]["alg"] is not None]
     answers = ctx.driver.ask_many(
         [{"k": "history", "cfg": plan[i][1]["mcfg"], "alg": plan[i][1]["alg"], "exprs": plan[i][2]} for i in modelled])
     model_of = dict(zip(modelled, answers))
     for i, (cfgname, cfg, exprs, kinds) in enumerate(plan):
-        judge(ctx, cfgname, cfg, exprs, kinds, model=model_of.get(i), seed=rng.randrange(1 << 30))
+        judge(ctx, cfgname, cfg, exprs, kinds, model=model_of.get(i), seed=rng.randrange(1 << 30),
+              pristine=pristine if cfg["pristine"] else None)
         if len(ctx.violations) >= 4:
             break
     extra = max(30, count // 5)
@@ -651,8 +776,10 @@ def replay(ctx: Ctx, payload):
     else:
         cfg = cfgs[rp["cfg"]]
         print("configuration: %s" % rp["cfg"])
+    base = pristine_outcomes(sorted(set(rp["exprs"]))) if cfg.get("pristine") else {}
     for s, (out, left, right, fresh) in zip(rp["exprs"], run_history(cfg, rp["exprs"], seed=rp.get("seed", 0),
                                                                       poisoned=bool(rp.get("poisoned")))):
-        print("solve(%r) -> %s   [fresh instance: %s]   buffers left behind: %s | %s" %
-              (s, json.dumps(out)[:160], json.dumps(fresh)[:160], left, right))
+        print("solve(%r) -> %s   [fresh instance: %s]%s   buffers left behind: %s | %s" %
+              (s, json.dumps(out)[:160], json.dumps(fresh)[:160],
+               ("   [process that solved nothing before: %s]" % json.dumps(base[s])[:160]) if s in base else "", left, right))
     return 0
